@@ -519,8 +519,10 @@ impl ArchiveFooter {
         src.seek(SeekFrom::Start(start))?;
 
         // Read files_info
+        // The footer cannot announce anything bigger than itself: it bounds
+        // what the deserializer allocates (eg. for a filename) before reading
         let files_info: HashMap<String, FileInfo> = match bincode::options()
-            .with_limit(BINCODE_MAX_DESERIALIZE)
+            .with_limit(std::cmp::min(len, BINCODE_MAX_DESERIALIZE))
             .with_fixint_encoding()
             .deserialize_from(&mut src.take(len))
         {
